@@ -549,6 +549,15 @@ def fixture_histories(rng, doc, quick: bool):
             has_strokes = True   # no sidecar: border calls are not usable on this table
         merged = any(type(c).__name__ == "MergedCell" or c.is_merged for row in t._data for c in row) if nr * nc <= 5000 else True
         H, mode = gen_history(rng, min(nr, 40), min(nc, 40), borders=not has_strokes and not merged)
+        # giving a caption to a table that has none needs a paragraph style called "...Caption..." in the document;
+        # documents written by a localised Numbers have none (issue-69.numbers: Table.caption = ... raises
+        # StopIteration).  Whether a caption can be *set* there is not C16's subject: no caption is set on them.
+        try:
+            can_caption = any("Caption" in m.objects[x].super.name for x in m.find_refs("ParagraphStyleArchive"))
+        except Exception:  # noqa: BLE001
+            can_caption = False
+        if not can_caption:
+            H = [ev for ev in H if ev[0] != "cap"]
         out.append((tbl, H, mode))
     return out
 
